@@ -229,12 +229,42 @@ fn mutate_tokens_duplicate_id(rng: &mut Rng, toks: &mut Vec<Token>) -> &'static 
     }
 }
 
+/// Add one more entry to the allocator's free list: an index at / just beyond the declared
+/// length, the index of a stored entity, or a copy of an existing free entry.
+fn mutate_tokens_free_extra(rng: &mut Rng, toks: &mut Vec<Token>) -> &'static str {
+    let (segs, alloc_at) = identifier_segments(toks);
+    let Some(alloc_at) = alloc_at else { return "noop" };
+    let length = (alloc_at..toks.len()).find(|&i| matches!(toks[i], Token::Field("length"))).and_then(|i| toks.get(i + 1)).and_then(token_num);
+    let Some(fs) = (alloc_at..toks.len()).find(|&i| matches!(toks[i], Token::Seq { .. })) else { return "noop" };
+    let Some(length) = length else { return "noop" };
+    let rows: Vec<u64> = segs.iter().filter(|s| s.0 < alloc_at).filter_map(|s| token_num(&toks[s.1])).collect();
+    let frees: Vec<u64> = segs.iter().filter(|s| s.0 > alloc_at).filter_map(|s| token_num(&toks[s.1])).collect();
+    let (index, what) = match rng.below(4) {
+        0 => (length, "free+index=length"),
+        1 => (length + 1, "free+index=length+1"),
+        2 if !rows.is_empty() => (rows[rng.below(rows.len())], "free+index=active"),
+        _ if !frees.is_empty() => (frees[rng.below(frees.len())], "free+index=duplicate"),
+        _ => (length, "free+index=length"),
+    };
+    if let Token::Seq { len: Some(l) } = toks[fs] {
+        toks[fs] = Token::Seq { len: Some(l + 1) };
+    }
+    let seg = vec![Token::Struct { name: "Identifier", len: 2 }, Token::Field("index"), Token::U64(index), Token::Field("generation"), Token::U64(rng.below(3) as u64), Token::StructEnd];
+    for (k, t) in seg.into_iter().enumerate() {
+        toks.insert(fs + 1 + k, t);
+    }
+    what
+}
+
 fn mutate_tokens(rng: &mut Rng, toks: &mut Vec<Token>) -> &'static str {
     if toks.is_empty() {
         return "noop";
     }
     if rng.chance(1, 12) {
         return mutate_tokens_duplicate_id(rng, toks);
+    }
+    if rng.chance(1, 14) {
+        return mutate_tokens_free_extra(rng, toks);
     }
     let bound = (toks.len() as u64).max(16);
     let pool: Vec<u64> = toks.iter().filter_map(token_num).collect();
@@ -392,9 +422,50 @@ fn mutate_json_duplicate_id(rng: &mut Rng, root: &mut Value) -> &'static str {
     }
 }
 
+/// JSON counterpart of `mutate_tokens_free_extra`.
+fn mutate_json_free_extra(rng: &mut Rng, root: &mut Value) -> &'static str {
+    let mut rows: Vec<u64> = Vec::new();
+    if let Some(archs) = root.get(0).and_then(|a| a.as_array()) {
+        for a in archs {
+            if let Some(rs) = a.get(2).and_then(|r| r.as_array()) {
+                for r in rs {
+                    if let Some(i) = r.get(0).and_then(|id| id.get("index")).and_then(|i| i.as_u64()) {
+                        rows.push(i);
+                    }
+                }
+            }
+        }
+    }
+    let alloc = match root.get_mut(1).and_then(|a| a.as_object_mut()) {
+        Some(a) => a,
+        None => return "noop",
+    };
+    let Some(length) = alloc.get("length").and_then(|l| l.as_u64()) else { return "noop" };
+    let frees: Vec<u64> = alloc.get("free").and_then(|f| f.as_array()).map(|f| f.iter().filter_map(|e| e.get("index").and_then(|i| i.as_u64())).collect()).unwrap_or_default();
+    let (index, what) = match rng.below(4) {
+        0 => (length, "free+index=length"),
+        1 => (length + 1, "free+index=length+1"),
+        2 if !rows.is_empty() => (rows[rng.below(rows.len())], "free+index=active"),
+        _ if !frees.is_empty() => (frees[rng.below(frees.len())], "free+index=duplicate"),
+        _ => (length, "free+index=length"),
+    };
+    let gen = rng.below(3) as u64;
+    match alloc.get_mut("free").and_then(|f| f.as_array_mut()) {
+        Some(f) => {
+            let at = rng.below(f.len() + 1);
+            f.insert(at, serde_json::json!({"index": index, "generation": gen}));
+            what
+        }
+        None => "noop",
+    }
+}
+
 fn mutate_json(rng: &mut Rng, root: &mut Value, bound: u64) -> &'static str {
     if rng.chance(1, 12) {
         return mutate_json_duplicate_id(rng, root);
+    }
+    if rng.chance(1, 14) {
+        return mutate_json_free_extra(rng, root);
     }
     let mut paths = Vec::new();
     json_paths(root, &mut Vec::new(), &mut paths);
